@@ -78,6 +78,7 @@ func main() {
 	limit := flag.Int("limit", 20000, "max schedules in exhaustive mode")
 	sample := flag.Int("sample", 2, "number of passing runs to print with their trace")
 	traces := flag.Int("traces", 0, "number of passing runs whose full trace is exported for model conformance (K2)")
+	pb1 := flag.Int("pb1", 0, "single-preemption exploration: for this many configurations, every schedule `first runs k steps, then second runs as long as it can, then the rest` for all ordered pairs of threads and all k")
 	only := flag.String("only", "", "a scenario shared by several properties prefixes its problems \"Cnn:\"; keep this property's (and unprefixed ones)")
 	flag.Parse()
 	sc, ok := scenarios[*name]
@@ -177,6 +178,60 @@ func main() {
 			}
 			if complete {
 				exhaustedCfgs++
+			}
+		}
+	} else if *pb1 > 0 {
+		// systematic, linear in the length of the run: what a WHOLE operation of one goroutine landing between two
+		// adjacent steps of another one does (uniform random scheduling finds such a schedule with probability 2^-k)
+		seen := map[string]bool{}
+		for c, tries := 0, 0; c < *pb1 && tries < 20**pb1 && total < *limit; tries++ {
+			cfg := sc.Config(r, false)
+			if seen[cfg] {
+				continue
+			}
+			seen[cfg] = true
+			c++
+			bodies, _ := sc.Build(cfg)
+			n := len(bodies)
+			policy := func(first, second, k int) func(int, []int) int {
+				taken := 0
+				return func(step int, runnable []int) int {
+					has := func(x int) bool {
+						for _, v := range runnable {
+							if v == x {
+								return true
+							}
+						}
+						return false
+					}
+					if taken < k && has(first) {
+						taken++
+						return first
+					}
+					if has(second) {
+						return second
+					}
+					return runnable[0]
+				}
+			}
+			for first := 0; first < n && total < *limit; first++ {
+				// how many steps does `first` take when it runs first, uninterrupted?
+				base := runOnce(*name, sc, cfg, 0, nil, policy(first, first, 1<<30), true)
+				record(base)
+				cnt := 0
+				for _, ch := range base.Choices {
+					if ch == first {
+						cnt++
+					}
+				}
+				for second := 0; second < n; second++ {
+					if second == first {
+						continue
+					}
+					for k := 0; k <= cnt && total < *limit; k++ {
+						record(runOnce(*name, sc, cfg, 0, nil, policy(first, second, k), true))
+					}
+				}
 			}
 		}
 	} else {
